@@ -253,11 +253,13 @@ Lemma first_index_none i ids : first_index i ids = None <-> ~ In i ids.
 Proof.
   induction ids as [|x t IH]; simpl; [tauto|].
   destruct (ident_eqb x i) eqn:E.
-  - apply ident_eqb_eq in E. split; [discriminate|]. intros H. exfalso. auto.
-  - apply ident_eqb_neq in E. destruct (first_index i t); simpl.
-    + split; [discriminate|]. intros H. exfalso. apply H. right. apply IH.
-      intros X. apply IH in X; discriminate.
-    + split; auto. intros _ [H|H]; [contradiction|]. apply IH in H; auto.
+  - apply ident_eqb_eq in E. split; [discriminate|]. intros H. exfalso. apply H. auto.
+  - apply ident_eqb_neq in E. destruct (first_index i t) eqn:F; simpl.
+    + split; [discriminate|]. intros H. exfalso.
+      assert (H0 : ~ In i t) by (intros X; apply H; auto).
+      apply IH in H0. discriminate.
+    + split; auto. intros _ [H|H]; [contradiction|].
+      assert (X : ~ In i t) by (apply IH; reflexivity). contradiction.
 Qed.
 
 Lemma idx_by_id_fold i (l : list (nat * ident)) acc :
@@ -273,21 +275,71 @@ Proof.
 Qed.
 
 (* with distinct element ids the dict {id: idx} finds THE element with that id *)
-Lemma idx_by_id_first ids i : NoDup ids -> idx_by_id ids i = first_index i ids.
+Lemma idx_fold_first i (t : list ident) : forall s, NoDup t ->
+  fold_left (fun acc (ke : nat * ident) => if ident_eqb (snd ke) i then Some (fst ke) else acc)
+            (combine (seq s (List.length t)) t) None
+  = option_map (fun k => s + k) (first_index i t).
 Proof.
-  unfold idx_by_id, enumerate. generalize 0 as s.
-  induction ids as [|x t IH]; intros s N; simpl; auto.
-  inversion N; subst. rewrite idx_by_id_fold.
-  change (combine (seq (S s) (List.length t)) t) with (combine (seq (S s) (List.length t)) t).
+  induction t as [|x u IH]; intros s N; simpl; auto.
+  inversion N; subst. rewrite idx_by_id_fold. rewrite (IH (S s)) by assumption.
   destruct (ident_eqb x i) eqn:E.
   - apply ident_eqb_eq in E. subst.
-    assert (Z : fold_left (fun acc (ke : nat * ident) => if ident_eqb (snd ke) i then Some (fst ke) else acc)
-                          (combine (seq (S s) (List.length t)) t) None = None).
-    { apply (fold_no_match i (combine (seq (S s) (List.length t)) (combine (seq 0 0) [] ++ [])) None) || idtac.
-      clear IH N H2. revert H1. generalize (S s). induction t as [|y u IHu]; intros s' H1; simpl; auto.
-      destruct (ident_eqb y i) eqn:E.
-      - apply ident_eqb_eq in E. subst. exfalso. apply H1. simpl. auto.
-      - apply IHu. intros X. apply H1. simpl. auto. }
-    rewrite Z. f_equal. (* s - s *) reflexivity.
-  - rewrite (IH (S s) H2). destruct (first_index i t); reflexivity.
+    assert (F : first_index i u = None) by (apply first_index_none; assumption).
+    rewrite F. simpl. f_equal. lia.
+  - destruct (first_index i u); simpl; auto; f_equal; lia.
 Qed.
+
+Lemma idx_by_id_first ids i : NoDup ids -> idx_by_id ids i = first_index i ids.
+Proof.
+  intros N. unfold idx_by_id, enumerate. rewrite idx_fold_first by exact N.
+  destruct (first_index i ids); reflexivity.
+Qed.
+
+(* the fixed group: the listed ids in listed order, each as the payload index of the
+   element that has this id; ids of no element are dropped *)
+Theorem fixed_listed ids listed :
+  NoDup ids ->
+  fixed_idxs ids listed
+  = flat_map (fun i => match first_index i ids with Some k => [k] | None => [] end) listed.
+Proof.
+  intros N. unfold fixed_idxs. apply flat_map_ext. intros i. rewrite idx_by_id_first by exact N.
+  reflexivity.
+Qed.
+
+(* --- shape ------------------------------------------------------------------------------------------- *)
+Theorem sbv_shape d s vals svals empties :
+  sbv_display d s vals svals empties =
+  let ids := d_ids d in
+  let top := fixed_idxs ids (s_top s) in
+  let bottom := fixed_idxs ids (s_bottom s) in
+  let subs := map snd (sort_vkeys (s_desc s) (subtotal_keys svals)) ++ subtotal_nans svals in
+  displayed (collator_hidden d empties)
+    ((if s_desc s then subs else [])
+     ++ map Z.of_nat top
+     ++ (map snd (sort_vkeys (s_desc s) (body_keys vals (top ++ bottom)))
+         ++ body_nans vals (top ++ bottom))
+     ++ map Z.of_nat bottom
+     ++ (if s_desc s then [] else subs)).
+Proof.
+  unfold sbv_display, sbv_segments, body_idxs, subtotal_idxs. cbv zeta. simpl.
+  rewrite app_nil_r. reflexivity.
+Qed.
+
+(* fallback: an unresolvable sort key gives exactly the anchored payload order *)
+Theorem sbv_fallback d s empties psub :
+  display_order d (ByValue s None) empties psub = display_order d (ByAnchor OPayload) empties psub
+  /\ display_order_bogus d (ByValue s None) empties psub
+     = display_order_bogus d (ByAnchor OPayload) empties psub.
+Proof. split; reflexivity. Qed.
+
+(* --- surrogate sort keys -------------------------------------------------------------------------------- *)
+Local Open Scope Q_scope.
+(* sorting on the variance instead of the standard deviation (its non-negative root):
+   same comparisons *)
+Theorem sq_le_iff (a b : Q) : 0 <= a -> 0 <= b -> (a <= b <-> a * a <= b * b).
+Proof. intros Ha Hb. split; intros H; nra. Qed.
+
+(* sorting on the standard error instead of the margin of error (a positive multiple), or on
+   the proportion instead of the population count: same comparisons *)
+Theorem scale_le_iff (c a b : Q) : 0 < c -> (a <= b <-> c * a <= c * b).
+Proof. intros Hc. split; intros H; nra. Qed.
